@@ -189,7 +189,9 @@ func c13Body(c *ev.Ctx) {
 		// is the valid request in one order and the invalid one in the other
 		// the two requests of a pair differ in every field (different tree states), so any
 		// shared scratch state shows
-		jobs = append(jobs, job{"insertion", []string{"valid1", "unsat2"}, 1}, job{"deletion", []string{"unsat2", "valid1"}, 1})
+		jobs = append(jobs, job{"insertion", []string{"valid1", "unsat2"}, 1}, job{"deletion", []string{"unsat2", "valid1"}, 1},
+			// two error responses with different contents: no proof is generated, so a deeper bound is cheap
+			job{"insertion", []string{"nonnumeric", "wrongdims"}, 2})
 	} else {
 		for _, m := range []string{"insertion", "deletion"} {
 			for _, p := range pairs {
@@ -226,8 +228,9 @@ func c13Body(c *ev.Ctx) {
 		e := &vsched.Explorer{Bound: jb.bound, Fine: true, UseKeys: false, CountOnly: true, MaxSteps: 2000000, Workers: 1 /* one execution at a time: the code under test may (wrongly) hold package-level state, which parallel executions in one process would share */, Deadline: c.Deadline, NewRun: c13Run(c, &sc), AfterRun: vhttp.Uninstall,
 			// alternatives only between connection (handler) threads: the interleavings of
 			// connection set-up, clients and server start-up/shut-down belong to C14
+			MaxChoiceDev: 1,
 			Filter: func(p *vsched.Point, alt int) bool {
-				return strings.HasPrefix(p.Running, "conn-") && strings.HasPrefix(p.Enabled[alt], "conn-")
+				return strings.HasPrefix(p.Label, "choose:") || (strings.HasPrefix(p.Running, "conn-") && strings.HasPrefix(p.Enabled[alt], "conn-"))
 			}}
 		e.OnFailure = func(choices []int, s *vsched.Sched, f *vsched.Failure) {
 			if f.Kind == "replay-divergence" {
